@@ -239,6 +239,15 @@ def random_scripts(rng, n, maxlen=200):
     for rep_ in range(3):
         for ver_, pl in btc.lookalike_payloads():
             out += [b'\xa9' + btc.push(pl, [None, 1, 2][rep_]) + b'\x87', b'\x76\xa9' + btc.push(pl, [None, 1, 2][rep_]) + b'\x88\xac', b'\x51']
+    # multisig shapes with 17..20 keys, the count written as a one-byte push (what Bitcoin Core's standardness matcher accepts; the
+    # statement's m-of-n stops at 16 = OP_16), and with m written that way
+    for n_ in (17, 18, 20):
+        keys_ = b''.join(btc.push(b'\x02' + rng.randbytes(32)) for _ in range(n_))
+        out += [b'\x51' + keys_ + bytes([1, n_]) + b'\xae', bytes([1, 17]) + keys_ + bytes([1, n_]) + b'\xae', b'\x51' + b'\x00' * n_ + bytes([1, n_]) + b'\xae']
+    # every opcode as the first byte of a two-element script "<opcode> <one push to the end>" (OP_RETURN is 0x6a and only 0x6a)
+    for op_ in range(256):
+        if op_ not in (0x4c, 0x4d, 0x4e) and not 1 <= op_ <= 75:
+            out.append(bytes([op_]) + btc.push(b'charley loves heidi'))
     # scripts beyond Bitcoin's 10 000-byte script size limit are still just scripts for a parser
     out += [b'\x51' * 10001, b'\x6a' + btc.push(rng.randbytes(10100)), b'\x51' + btc.push(rng.randbytes(10050)) + b'\x51\xae',
             b'\x75' * 10000, b'\x75' * 20000]
